@@ -26,6 +26,7 @@ RULE = (
     "Mcp-Session-Id {absent, S1, changed}; the single-behaviour matrix is enumerated exhaustively, sequences are Hypothesis-drawn; after every POST the virtual loop runs to quiescence and the read stream is drained; "
     "oracle: reference SSE parser / JSON body reference -> expected messages in order, else exactly one terminal response with the request's id (type-strict), nothing with an id for a notification, probe answered, "
     "every POST after a 2xx answer carrying a session id uses the most recent one; non-trivial = behaviour other than plain 200+JSON result, or a failure followed by a success, or a non-default SSE encoding; distinct = distinct sequence"
+    "; added in rounds 6-7 of the seeded changes: damaged-JSON events between real ones; messages after the response in the same body"
 )
 ASSUMPTIONS = [
     "real httpx client over MockTransport: request building, redirects and body decoding are real, sockets are not",
